@@ -169,6 +169,7 @@ type FuncCtx struct {
 	inlineStack map[*ssa.Function]bool
 	freshRefs map[string]bool
 	guardMode bool
+	boxedStructs map[string]StructV // interface terms built from struct values in this activation
 	recHeap   *heapTemplate // heap parameters of the spec function whose body is being emitted
 	guardAcc  map[*ssa.Function]map[int]string
 	autoLoopInv bool
@@ -742,6 +743,14 @@ func (fc *FuncCtx) compTerm(st *State, key, sort string) string {
 		}
 		nxt := qsym(fmt.Sprintf("H%d!%s", h.epoch, key))
 		fc.u.declare(nxt, "(declare-fun "+nxt+" () "+sort+")")
+		if key == "CH!closed" {
+			// whoever wrote it: a closed channel stays closed
+			mk := "mono:" + nxt
+			if !fc.u.declared[mk] {
+				fc.u.declared[mk] = true
+				fc.u.emit("(assert (forall ((r Int)) (! (=> (select " + name + " r) (select " + nxt + " r)) :pattern ((select " + nxt + " r)))))")
+			}
+		}
 		if h.frame != "" && strings.HasPrefix(sort, "(Array Int ") {
 			fk := "frame:" + nxt
 			if !fc.u.declared[fk] {
@@ -1199,6 +1208,10 @@ func (fc *FuncCtx) havocKeys(st *State, match func(key string) bool, frame strin
 		fc.u.declare(nxt, "(declare-fun "+nxt+" () "+srt+")")
 		if frame != "" && strings.HasPrefix(srt, "(Array Int ") {
 			fc.u.emit("(assert (forall ((r Int)) (! (=> (<= r " + frame + ") (= (select " + nxt + " r) (select " + cur + " r))) :pattern ((select " + nxt + " r)))))")
+		}
+		if k == "CH!closed" {
+			// whoever wrote it: a closed channel stays closed
+			fc.u.emit("(assert (forall ((r Int)) (! (=> (select " + cur + " r) (select " + nxt + " r)) :pattern ((select " + nxt + " r)))))")
 		}
 		st.heap[k] = nxt
 	}
